@@ -1424,6 +1424,84 @@ def translate_scatter(src_root):
     return "\n".join(L) + "\n", count[0]
 
 
+def translate_scatter_single(src_root):
+    """`ip_use` of `calibration_single_ended_helper` (which full-layout positions receive the solver's values and covariance) for
+    every combination of fix_gamma / fix_alpha / fix_dalpha, proved to be `Scatter.ipUseS`"""
+    tree = ast.parse((Path(src_root) / "dtscalibration" / "calibrate_utils.py").read_text())
+    fns = {n.name: n for n in ast.walk(tree) if isinstance(n, ast.FunctionDef)}
+    w = "calibration_single_ended_helper"
+    if w not in fns:
+        raise Untranslatable(f"{w} not found")
+    fn = fns[w]
+    src = ast.unparse(fn).replace("'", '"')
+    for piece in ("nt = self.dts.nt", "nx = self.dts.nx", "nta = len(trans_att)", "p_val[ip_use] = out[0]", "p_var[ip_use] = out[1]",
+                  "np.fill_diagonal(p_cov, p_var)", "p_cov[np.ix_(ip_use, ip_use)] = out[2]", "X[:, ip_use]", "x0=p_val[ip_use]",
+                  "p_var = np.zeros_like(p_val)", "p_cov = np.zeros((p_val.size, p_val.size), dtype=float)"):
+        if piece not in src:
+            raise Untranslatable(f"{w}: `{piece}` is gone")
+    sizes = {"nt": "nt", "nx": "nx", "nta": "nta"}
+
+    def rng(n, where):
+        if not (isinstance(n, ast.Call) and ast.unparse(n.func) == "list" and len(n.args) == 1 and isinstance(n.args[0], ast.Call)
+                and ast.unparse(n.args[0].func) == "range"):
+            raise Untranslatable(f"{where}: `{ast.unparse(n)[:60]}` is not list(range(...))")
+        a = n.args[0].args
+        if len(a) == 1:
+            return f"List.range ({_sc_scalar(a[0], where, sizes)})", None
+        if len(a) == 2:
+            return None, f"(arange {_sc_scalar(a[0], where, sizes)} ({_sc_scalar(a[1], where, sizes)}))"
+        raise Untranslatable(f"{where}: range with a step")
+
+    def find_ip_use(body):
+        for st in body:
+            if isinstance(st, ast.Assign) and ast.unparse(st.targets[0]) == "ip_use":
+                return st.value
+        return None
+
+    first = [st for st in fn.body if isinstance(st, ast.If) and ast.unparse(st.test) == "fix_alpha"]
+    if len(first) != 1:
+        raise Untranslatable(f"{w}: `if fix_alpha:` (choice of the layout) not found")
+    a_mode, d_mode = find_ip_use(first[0].body), find_ip_use(first[0].orelse)
+    if a_mode is None or d_mode is None:
+        raise Untranslatable(f"{w}: ip_use is not initialised in both layouts")
+    u0a, _ = rng(a_mode, w)
+    u0d, _ = rng(d_mode, w)
+    if u0a is None or u0d is None:
+        raise Untranslatable(f"{w}: ip_use does not start at 0")
+    lines = [f"  let u0 := if alphaMode then {u0a} else {u0d}"]
+    flag = {"fix_gamma is not None": "fg", "fix_alpha is not None": "fa", "fix_dalpha is not None": "fd"}
+    k = 0
+    seen = []
+    for st in fn.body:
+        if isinstance(st, ast.If) and ast.unparse(st.test) in flag:
+            f = flag[ast.unparse(st.test)]
+            seen.append(f)
+            rem = next((x.value for x in st.body if isinstance(x, ast.Assign) and ast.unparse(x.targets[0]) == "ip_remove"), None)
+            if rem is None:
+                raise Untranslatable(f"{w}: `{ast.unparse(st.test)}` does not set ip_remove")
+            if isinstance(rem, ast.List) and all(isinstance(e, ast.Constant) and isinstance(e.value, int) for e in rem.elts):
+                rtxt = "[" + ", ".join(str(e.value) for e in rem.elts) + "]"
+            else:
+                _, rtxt = rng(rem, w)
+                if rtxt is None:
+                    raise Untranslatable(f"{w}: ip_remove `{ast.unparse(rem)}`")
+            body = ast.unparse(ast.Module(body=st.body, type_ignores=[]))
+            short = ast.unparse(st.test).split()[0]
+            for piece in ("ip_use = [i for i in ip_use if i not in ip_remove]", f"p_val[ip_remove] = {short}[0]", f"p_var[ip_remove] = {short}[1]"):
+                if piece not in body:
+                    raise Untranslatable(f"{w} ({short}): `{piece}` is gone")
+            lines.append(f"  let u{k + 1} := if {f} then u{k}.filter (fun i => !(({rtxt}).contains i)) else u{k}")
+            k += 1
+    if sorted(seen) != ["fa", "fd", "fg"]:
+        raise Untranslatable(f"{w}: fixed-parameter blocks found for {seen}")
+    lines.append(f"  u{k}")
+    L = ["\nnamespace DtsVerif.GenScatter\nopen DtsVerif.Py DtsVerif.Scatter\n",
+         "def ipUseG (alphaMode fg fa fd : Bool) (nt nx nta : Nat) : List Nat :=\n" + "\n".join(lines),
+         "theorem ipUseG_eq (alphaMode fg fa fd : Bool) (nt nx nta : Nat) : ipUseG alphaMode fg fa fd nt nx nta = ipUseS alphaMode fg fa fd nt nx nta := rfl",
+         "\nend DtsVerif.GenScatter"]
+    return "\n".join(L) + "\n"
+
+
 # ================================================================================================ observations and weights
 def _strip(n):
     """drop `.values`, `.ravel()`, `.T` wrappers; returns (inner node, list of wrappers outermost first)"""
@@ -1705,7 +1783,7 @@ SECTIONS = {
     "C04": dict(formulas=("temps",), extra=("layout",)),
     "C05": dict(formulas=("temps", "derivs", "terms"), extra=()),
     "C06": dict(formulas=("derivs", "terms", "weighted"), extra=()),
-    "C07": dict(formulas=(), extra=("reduce",)),
+    "C07": dict(formulas=(), extra=("reduce", "scatter-single")),
     "C08": dict(formulas=("temps", "mc"), extra=("mcunpack",)),
     "C12": dict(formulas=(), extra=("time",)),
     "C19": dict(formulas=(), extra=("guards",)),
@@ -1730,6 +1808,8 @@ def translate_for(prop, src_root):
             text += translate_shift(src_root)
         elif e == "reduce":
             text += translate_reduce(src_root)
+        elif e == "scatter-single":
+            text += translate_scatter_single(src_root)
         elif e == "scatter":
             t_, n_ = translate_scatter(src_root)
             text += t_
